@@ -186,4 +186,100 @@ theorem toJson_refines (M : Meas ℝ) (gs : List Getter) :
         rw [← a1, ← a2]
         simp only [answerOf, List.map_append]
 
+/-! ## `to_hoomd` -/
+
+theorem setCentroid_cEdges (M : Meas ℝ) (s : St ℝ) (v : V3 ℝ) : (setCentroid M s v).cEdges = s.cEdges := by
+  unfold setCentroid; cases s.cls.kind <;> rfl
+theorem setCentroid_cls (M : Meas ℝ) (s : St ℝ) (v : V3 ℝ) : (setCentroid M s v).cls = s.cls :=
+  (setCentroid_frame M s v).cls
+theorem polygonInertia_cEdges (M : Meas ℝ) (s : St ℝ) : (polygonInertia M s).1.cEdges = s.cEdges := by
+  show (polygonInertiaHead M s).cEdges = _
+  unfold polygonInertiaHead
+  rw [setCentroid_cEdges]; rfl
+theorem polygonInertia_cls (M : Meas ℝ) (s : St ℝ) : (polygonInertia M s).1.cls = s.cls :=
+  (polygonInertia_frame M s).cls
+
+theorem WF.setCentroid {M : Meas ℝ} {s : St ℝ} (hw : Spec.WF s) (v : V3 ℝ) : Spec.WF (setCentroid M s v) :=
+  WF.of_frame hw (setCentroid_frame M s v)
+
+theorem polygonToHoomd_refines (M : Meas ℝ) (hL : Spec.Lawful M) (s : St ℝ) (hw : Spec.WF s)
+    (hc : Spec.Coherent M s) (hk : s.cls.kind = .planar) :
+    Refines M s (polygonToHoomd M s)
+      { arrays := [(0, cols2 (Spec.moved M s.cls (observe s) V3.zero).verts),
+                   (2, v3l (Spec.centroidOf M s.cls (Spec.moved M s.cls (observe s) V3.zero))),
+                   (4, Spec.polygonInertia M s.cls (Spec.moved M s.cls (observe s) V3.zero))],
+        scalars := M.value "area" (Spec.moved M s.cls (observe s) V3.zero), err := none } := by
+  -- the five states
+  have w1 := WF.setCentroid (M := M) hw V3.zero
+  have o1 := observe_setCentroid M s V3.zero hw
+  have c1 := setCentroid_cls M s V3.zero
+  have w2 := WF.alloc w1 (v3l (pubCentroid M (setCentroid M s V3.zero)))
+  have o2 := observe_alloc _ (v3l (pubCentroid M (setCentroid M s V3.zero))) w1
+  have k2 : ((setCentroid M s V3.zero).alloc (v3l (pubCentroid M (setCentroid M s V3.zero)))).cls.kind = .planar := by
+    show (setCentroid M s V3.zero).cls.kind = _; rw [c1, hk]
+  have f3 := polygonInertia_frame M ((setCentroid M s V3.zero).alloc (v3l (pubCentroid M (setCentroid M s V3.zero))))
+  have w3 := WF.of_frame w2 f3
+  have o3 := observe_polygonInertia M _ w2 k2
+  have a3 := polygonInertia_answer M _ w2
+  have w4 := WF.alloc w3 (cols2 ((polygonInertia M ((setCentroid M s V3.zero).alloc
+    (v3l (pubCentroid M (setCentroid M s V3.zero))))).1.get (polygonInertia M ((setCentroid M s V3.zero).alloc
+    (v3l (pubCentroid M (setCentroid M s V3.zero))))).1.fVerts))
+  have o4 := observe_alloc _ (cols2 ((polygonInertia M ((setCentroid M s V3.zero).alloc
+    (v3l (pubCentroid M (setCentroid M s V3.zero))))).1.get (polygonInertia M ((setCentroid M s V3.zero).alloc
+    (v3l (pubCentroid M (setCentroid M s V3.zero))))).1.fVerts)) w3
+  have o5 := observe_setCentroid M _ (pubCentroid M s) w4
+  have f5 := setCentroid_frame M ((polygonInertia M ((setCentroid M s V3.zero).alloc
+    (v3l (pubCentroid M (setCentroid M s V3.zero))))).1.alloc (cols2 ((polygonInertia M ((setCentroid M s V3.zero).alloc
+    (v3l (pubCentroid M (setCentroid M s V3.zero))))).1.get (polygonInertia M ((setCentroid M s V3.zero).alloc
+    (v3l (pubCentroid M (setCentroid M s V3.zero))))).1.fVerts))) (pubCentroid M s)
+  rw [o4, o3, o2, o1] at o5
+  have cls4 : ((polygonInertia M ((setCentroid M s V3.zero).alloc (v3l (pubCentroid M (setCentroid M s V3.zero))))).1.alloc
+      (cols2 ((polygonInertia M ((setCentroid M s V3.zero).alloc (v3l (pubCentroid M (setCentroid M s V3.zero))))).1.get
+        (polygonInertia M ((setCentroid M s V3.zero).alloc (v3l (pubCentroid M (setCentroid M s V3.zero))))).1.fVerts))).cls
+      = s.cls := by
+    show (polygonInertia M _).1.cls = _
+    rw [polygonInertia_cls]; exact c1
+  rw [cls4, ← centroidOf_observe, moved_back M hL s.cls (observe s) (CohObs.of_coherent hc)] at o5
+  have n3 := polygonInertia_next M ((setCentroid M s V3.zero).alloc (v3l (pubCentroid M (setCentroid M s V3.zero))))
+  have r3 := polygonInertia_ret M ((setCentroid M s V3.zero).alloc (v3l (pubCentroid M (setCentroid M s V3.zero))))
+  have h3 := (polygonInertiaHead_frame M ((setCentroid M s V3.zero).alloc (v3l (pubCentroid M (setCentroid M s V3.zero))))).next_le
+  simp only [St.next_alloc] at h3
+  have v1 := w1.verts
+  have fv3 : (polygonInertia M ((setCentroid M s V3.zero).alloc (v3l (pubCentroid M (setCentroid M s V3.zero))))).1.fVerts
+      = (setCentroid M s V3.zero).fVerts := rfl
+  refine ⟨o5, ?_, ?_⟩
+  · -- the answer
+    show Answer.mk _ _ _ = _
+    simp only [polygonToHoomd, List.map, Answer.mk.injEq, and_true, List.cons.injEq, Prod.mk.injEq, true_and]
+    refine ⟨⟨?_, ?_, ?_⟩, ?_⟩
+    · -- vertices: the copy taken while centred
+      rw [f5.get_eq _ (by simp only [St.next_alloc]; omega) (by show _ ≠ (setCentroid M s V3.zero).fVerts; omega),
+        St.get_alloc_self]
+      have : (polygonInertia M ((setCentroid M s V3.zero).alloc (v3l (pubCentroid M (setCentroid M s V3.zero))))).1.get
+          (polygonInertia M ((setCentroid M s V3.zero).alloc (v3l (pubCentroid M (setCentroid M s V3.zero))))).1.fVerts
+          = (Spec.moved M s.cls (observe s) V3.zero).verts := by
+        have := congrArg Obs.verts o3
+        rw [o2, o1] at this
+        exact this
+      rw [this]
+    · -- centroid array
+      rw [f5.get_eq _ (by simp only [St.next_alloc]; omega) (by show _ ≠ (setCentroid M s V3.zero).fVerts; omega),
+        St.get_alloc_of_lt _ _ _ (by omega),
+        f3.get_eq _ (by simp only [St.next_alloc]; omega) (by show _ ≠ (setCentroid M s V3.zero).fVerts; omega),
+        St.get_alloc_self, ← centroidOf_observe, o1, c1]
+    · -- inertia tensor
+      rw [f5.get_eq _ (by simp only [St.next_alloc]; omega) (by show _ ≠ (setCentroid M s V3.zero).fVerts; omega),
+        St.get_alloc_of_lt _ _ _ (by omega), a3, o2, o1]
+      show Spec.polygonInertia M (setCentroid M s V3.zero).cls _ = _
+      rw [c1]
+    · rw [o2, o1]
+  · refine edges_kept ?_ hw hc ?_
+    · exact (polygonToHoomd_frame M s).1
+    · show (setCentroid M _ _).cEdges = _
+      rw [setCentroid_cEdges]
+      show (polygonInertia M _).1.cEdges = _
+      rw [polygonInertia_cEdges]
+      show (setCentroid M s V3.zero).cEdges = _
+      rw [setCentroid_cEdges]
+
 end C16
